@@ -107,8 +107,13 @@ def check_body(body, comp, ei, ti, use_pack):
     for kind, head in (("req", REQHEAD), ("rsp", RSPHEAD)):
         feeds.append((kind, (head + enc,), ""))
         feeds.append((kind, (head,) + httpgen.bytewise(enc), ":bytewise"))
+    if len(comp) >= 2 and not use_pack:
+        # client side: head and first chunk are parsed, then the remaining chunks arrive together with the peer's close
+        # (a server that sends the tail of its answer and closes): everything needed is in the buffer, the body must be whole
+        first = len(b"%x" % comp[0]) + len(ext) + 2 + comp[0] + 2
+        feeds.append(("rsp", (RSPHEAD + enc[:first], enc[first:]), ":tail-with-close"))
     for kind, frags, how in feeds:
-        res, left, exc = httpgen.drive(kind, frags)
+        res, left, exc = httpgen.drive(kind, frags, close_first=(how == ":tail-with-close"))
         tag = "%s:%s%s%s" % (kind, "ext" if ext and not use_pack else "noext", ":trailers" if trailers else "", how)
         if exc:
             v.append(("decode-raises:%s:%s" % (exc[0], tag), "chunked %r raised %r" % (enc, exc)))
@@ -148,31 +153,32 @@ def check_size(s):
     if n > 0xffff:
         return v
     data = b"Z" * n
-    if n:
-        enc = s.encode() + b"\r\n" + data + b"\r\n0\r\n\r\n"
-    else:
-        enc = s.encode() + b"\r\n\r\n"
-    for kind, head in (("req", REQHEAD), ("rsp", RSPHEAD)):
-        res, left, exc = httpgen.drive(kind, (head + enc,))
-        msgs = [m for m in res if m[0] == kind]
-        errored = bool(exc) or any((m[12] if kind == "req" else m[9]) for m in msgs)
-        gbody = None
-        if msgs and not errored:
-            gbody = msgs[0][8] if kind == "req" else msgs[0][5]
-        if valid:
-            if errored or gbody != data:
-                v.append(("size-valid-rejected:%s" % kind, "size line %r (=%d) gave error=%r body=%r" % (s, n, exc or errored, None if gbody is None else len(gbody))))
-        elif padded:
-            pass
+    for sfx in (b"", b";a=1"):      # the same size line alone and followed by a chunk extension
+        if n:
+            enc = s.encode() + sfx + b"\r\n" + data + b"\r\n0\r\n\r\n"
         else:
-            if not errored:     # "is reported as an error": also a parser that silently waits for more chunk data has accepted the size
-                shape = re.sub(r"[0-9a-fA-F]+", "H", s.strip())
-                shape = re.sub(r"[ \t]+", "w", shape)
-                cls = {"+H": "plus-sign", "-H": "minus-sign", "HxH": "0x-prefix", "HXH": "0x-prefix", "H_H": "underscore",
-                       "HwH": "inner-whitespace"}.get(shape, "other:" + shape)
-                v.append(("size-invalid-accepted:%s" % cls,
-                          "size line %r is not plain hex but was not reported as an error (%s)" % (
-                              s, "decoded as a chunk of %s bytes" % (None if gbody is None else len(gbody)) if msgs else "parser waits for more chunk data")))
+            enc = s.encode() + sfx + b"\r\n\r\n"
+        for kind, head in (("req", REQHEAD), ("rsp", RSPHEAD)):
+            res, left, exc = httpgen.drive(kind, (head + enc,))
+            msgs = [m for m in res if m[0] == kind]
+            errored = bool(exc) or any((m[12] if kind == "req" else m[9]) for m in msgs)
+            gbody = None
+            if msgs and not errored:
+                gbody = msgs[0][8] if kind == "req" else msgs[0][5]
+            if valid:
+                if errored or gbody != data:
+                    v.append(("size-valid-rejected:%s%s" % (kind, ":with-extension" if sfx else ""), "size line %r (=%d) gave error=%r body=%r" % (s, n, exc or errored, None if gbody is None else len(gbody))))
+            elif padded:
+                pass
+            else:
+                if not errored:     # "is reported as an error": also a parser that silently waits for more chunk data has accepted the size
+                    shape = re.sub(r"[0-9a-fA-F]+", "H", s.strip())
+                    shape = re.sub(r"[ \t]+", "w", shape)
+                    cls = {"+H": "plus-sign", "-H": "minus-sign", "HxH": "0x-prefix", "HXH": "0x-prefix", "H_H": "underscore",
+                           "HwH": "inner-whitespace"}.get(shape, "other:" + shape)
+                    v.append(("size-invalid-accepted:%s%s" % (cls, ":with-extension" if sfx else ""),
+                              "size line %r is not plain hex but was not reported as an error (%s)" % (
+                                  s, "decoded as a chunk of %s bytes" % (None if gbody is None else len(gbody)) if msgs else "parser waits for more chunk data")))
     return v
 
 
